@@ -100,6 +100,10 @@ class CacheStore(object):
         # the cache all together.
         if self._directory is None:
             return
+        # A relative path names different files from different working
+        # directories: the entry is keyed on the absolute path, so that scans
+        # run from two directories never share an entry for two files.
+        filename = os.path.abspath(filename)
         # Assume UTF-8 encoding for the filenames. This doesn't matter so much
         # as long as the results of this method always produce the same hash.
         hexdigest = hashlib.sha1(filename.encode('utf-8')).hexdigest()
